@@ -491,6 +491,11 @@ func pendingChunks(q *pendingQueue) []*chunkPayloadData {
 
 func propC18(j *Job) {
 	modes := stdModes()
+	// blocking writes against a window that closes and reopens (the last queued chunk can leave
+	// as a window probe): every write returns, and what it accepted is delivered
+	runCases(j, famZ7(modes[:2], 0), func(spec *xferSpec) func(m *Sim, x *Exec, r *xferResult) {
+		return deliveryFinal(spec, false, monOpts{})
+	})
 	// (1) all call programs up to a length over the alphabet
 	alphabet := []byte{'1', '3', '0', 'X'}
 	maxLen := 3
